@@ -74,7 +74,7 @@ def run(chk):
     traced_texts = set(r["text"] for r in rejected)
     for u, f in bad:
         mine = [x for x in f if x.startswith(PREFIX)]
-        if mine and u.get("e") == "Done" and u.get("text") not in traced_texts:
+        if mine and u.get("e") == "Done" and u.get("text") not in traced_texts and u.get("text") in pg.EXAMINED:
             chk.violation({"class": "obs", "entry": u.get("entry"), "why": mine},
                           {"text": u.get("text"), "tokLimit": u.get("tokLimit"), "recLimit": u.get("recLimit")})
     for row in sorted(bad_rows, key=lambda r: len(r["toks"]))[:10]:
